@@ -288,3 +288,27 @@ M('c15-append-header-truthiness-of-current', 'C15', 'R12', 'falcon/response.py',
             if current:
                 value = current + ', ' + value
 """)
+
+# ---- wave 4
+M('c15-set-cookie-rollback-deletes-jar-entry', 'C15', 'R14', 'falcon/response.py',
+  """            if same_site not in _RESERVED_SAMESITE_VALUES:
+                raise ValueError(
+""", """            if same_site not in _RESERVED_SAMESITE_VALUES:
+                del self._cookies[name]
+                raise ValueError(
+""")
+M('c15-unset-cookie-pops-jar-entry', 'C15', 'R14', 'falcon/response.py',
+  """        self._cookies[name] = ''
+""", """        self._cookies.pop(name, None)
+        self._cookies[name] = ''
+""")
+M('c15-set-cookie-replaces-jar', 'C15', 'R14', 'falcon/response.py',
+  """        if self._cookies is None:
+            self._cookies = http_cookies.SimpleCookie()
+
+        try:
+""", """        if not self._cookies or name in self._cookies:
+            self._cookies = http_cookies.SimpleCookie()
+
+        try:
+""")
